@@ -72,8 +72,23 @@ fn edit_burst_motif() -> BoxedStrategy<Vec<QuantOp>> {
         .boxed()
 }
 
+/// motif: one forbid call that would empty the scale with the current note's class last (so that class survives), a few
+/// neighbours re-allowed, then an input in the hysteresis margin of the kept note
+fn forbid_all_motif() -> BoxedStrategy<Vec<QuantOp>> {
+    (quant_input(), 0u8..12, proptest::collection::vec(0u8..12, 0..4), prop_oneof![(-0.012f32..0.012).prop_map(QuantOp::ConvertNudge), (0.07f32..0.095).prop_map(QuantOp::ConvertNudge), (-0.095f32..-0.07).prop_map(QuantOp::ConvertNudge), Just(QuantOp::ConvertSame)])
+        .prop_map(|(v, rot, allow, again)| {
+            let mut ops = vec![QuantOp::Convert(v), QuantOp::ForbidAllLast(rot)];
+            if !allow.is_empty() {
+                ops.push(QuantOp::Allow(allow));
+            }
+            ops.push(again);
+            ops
+        })
+        .boxed()
+}
+
 pub fn quant_case() -> BoxedStrategy<QuantCase> {
-    (proptest::collection::vec(quant_op(), 1..80), prop_oneof![4 => Just(vec![]), 1 => edit_burst_motif()], any::<proptest::sample::Index>())
+    (proptest::collection::vec(quant_op(), 1..80), prop_oneof![4 => Just(vec![]), 1 => edit_burst_motif(), 1 => forbid_all_motif()], any::<proptest::sample::Index>())
         .prop_map(|(mut ops, motif, at)| {
             if !motif.is_empty() {
                 let pos = at.index(ops.len() + 1);
